@@ -35,6 +35,10 @@ def gen(rng, spec):
         return search.gen_case(rng, max_n=5, many_cats=True)      # category ids far beyond the tag list
     if r < 0.38:
         return search.neginf_arcs(rng, search.gen_case(rng, max_n=5, sparse=rng.random() < 0.5))   # arcs of probability 0
+    if r < 0.41:
+        case = search.gen_case(rng, max_n=5, sparse=rng.random() < 0.5)
+        case['config']['max_step'] = rng.choice((2**32 - 1, 2**31, 2**31 + 7))      # "no limit" as callers spell it
+        return case
     return search.gen_case(rng, max_n=7 if r < 0.5 else 5, sparse=r > 0.8)
 
 
